@@ -1114,27 +1114,36 @@ func (e *Exec) arithInt(st *State, fr *Frame, in ssa.Instruction, op token.Token
 			return exactOp(c.Mul(a, c.IntConst(pow2(k))))
 		}
 	case token.OR:
-		// a | b where the operands have provably disjoint bit ranges: hi multiple of 2^k, lo < 2^k
-		if k, ok := e.multipleOfPow2(a); ok {
-			if e.belowPow2(b, k) || c.within(b, big.NewInt(0), new(big.Int).Sub(pow2(k), big.NewInt(1))) {
-				return c.Add(a, b)
-			}
-		}
-		if k, ok := e.multipleOfPow2(b); ok {
-			if e.belowPow2(a, k) || c.within(a, big.NewInt(0), new(big.Int).Sub(pow2(k), big.NewInt(1))) {
-				return c.Add(a, b)
-			}
-		}
-		// OR of sums of disjoint shifted bytes: (x | y) where both are non-negative and x is a multiple of 2^k > y
-		if ka, ok := e.lowZeroBits(a); ok && c.within(b, big.NewInt(0), new(big.Int).Sub(pow2(ka), big.NewInt(1))) {
-			return c.Add(a, b)
-		}
-		if kb, ok := e.lowZeroBits(b); ok && c.within(a, big.NewInt(0), new(big.Int).Sub(pow2(kb), big.NewInt(1))) {
-			return c.Add(a, b)
+		if r, ok := e.orInt(a, b); ok {
+			return r
 		}
 	}
 	e.bail("operator %s not expressible in arith-int mode at %s", op, e.posOf(in))
 	return nil
+}
+
+// orInt: a | b over mathematical integers when the operands have provably disjoint bit ranges
+// (one a multiple of 2^k, the other within [0, 2^k)).
+func (e *Exec) orInt(a, b *Term) (*Term, bool) {
+	c := e.C
+	if k, ok := e.multipleOfPow2(a); ok {
+		if e.belowPow2(b, k) || c.within(b, big.NewInt(0), new(big.Int).Sub(pow2(k), big.NewInt(1))) {
+			return c.Add(a, b), true
+		}
+	}
+	if k, ok := e.multipleOfPow2(b); ok {
+		if e.belowPow2(a, k) || c.within(a, big.NewInt(0), new(big.Int).Sub(pow2(k), big.NewInt(1))) {
+			return c.Add(a, b), true
+		}
+	}
+	// OR of sums of disjoint shifted bytes: (x | y) where both are non-negative and x is a multiple of 2^k > y
+	if ka, ok := e.lowZeroBits(a); ok && c.within(b, big.NewInt(0), new(big.Int).Sub(pow2(ka), big.NewInt(1))) {
+		return c.Add(a, b), true
+	}
+	if kb, ok := e.lowZeroBits(b); ok && c.within(a, big.NewInt(0), new(big.Int).Sub(pow2(kb), big.NewInt(1))) {
+		return c.Add(a, b), true
+	}
+	return nil, false
 }
 
 func lowMask(t *Term) (uint, bool) {
